@@ -112,7 +112,7 @@ void MessageSerializer::Visit(
   unsigned int used_size = std::max(
       size,
       message->GetDescriptor()->MinSize());
-  CheckForFreeSpace(size);
+  CheckForFreeSpace(used_size);
   memcpy(m_data + m_offset, message->Value().c_str(), size);
   memset(m_data + m_offset + size, 0, used_size - size);
   m_offset += used_size;
@@ -189,10 +189,18 @@ void MessageSerializer::CheckForFreeSpace(unsigned int required_size) {
     return;
   }
 
+  // grow until the new data fits, and remember the new size
+  unsigned int new_size = m_buffer_size ? 2 * m_buffer_size :
+      static_cast<unsigned int>(INITIAL_BUFFER_SIZE);
+  while (new_size - m_offset <= required_size) {
+    new_size *= 2;
+  }
+
   uint8_t *old_buffer = m_data;
-  m_data = new uint8_t[2 * m_buffer_size];
+  m_data = new uint8_t[new_size];
   memcpy(m_data, old_buffer, m_offset);
   delete[] old_buffer;
+  m_buffer_size = new_size;
 }
 
 
